@@ -16,15 +16,18 @@ Section EvalEdge.
   Notation expr := (expr num).
   Notation py_eval := (py_eval num add sub mul div neg absf ltb is_nan is_inf of_int fexp flog fpow).
   Notation py_pass := (py_pass num add sub mul div neg absf ltb is_nan is_inf of_int fexp flog fpow).
-  Notation benign := (benign num).
-  Notation lit_atom := (lit_atom num).
+  Notation benign := (benign num add sub mul div of_int fpow).
+  Notation lit_atom := (lit_atom num add sub mul div of_int fpow).
+  Notation dec_atom := (dec_atom num).
 
   Lemma atom_val (e : expr) : lit_atom e -> exists pa, forall rdp, py_eval false rdp e = inl pa.
   Proof.
-    induction e as [i k|z|d8 d4|a IHa|a IHa|o a IHa b IHb|a IHa|a IHa|a IHa|m a IHa b IHb]; cbn [FBenignFacts.lit_atom]; intros H; try contradiction.
-    - exists (PI z). reflexivity.
-    - exists (PF d8). reflexivity.
-    - destruct (IHa H) as [pa Hp]. exists pa. intros rdp. cbn [FSem.py_eval]. apply Hp.
+    intros [H|H].
+    - exists (PI (ival num e)). intros rdp. apply (int_atom_both num add sub mul div neg absf ltb is_nan is_inf of_int fexp flog fpow
+                                                   (fun x => x) (fun x => x) (fun x => x) (fun x _ => x) (of_int 1) false rdp (fun _ _ => of_int 0) e H).
+    - exists (PF (lf_sem num add sub mul div neg absf ltb of_int fexp flog fpow (fun _ _ => of_int 0) e)). intros rdp.
+      apply (dec_atom_both num add sub mul div neg absf ltb is_nan is_inf of_int fexp flog fpow
+               (fun x => x) (fun x => x) (fun x => x) (fun x _ => x) (of_int 1) false rdp (fun _ _ => of_int 0) e H).
   Qed.
 
   (* without the warnings filter a benign expression yields a float64 or fails at a read *)
@@ -56,9 +59,17 @@ Section EvalEdge.
     - cbn [FSem.py_eval]. destruct (IHa Hb rdp) as [[x ->]| ->]; [left; eexists; reflexivity|right; reflexivity].
     - cbn [FSem.py_eval]. destruct (IHa Hb rdp) as [[x ->]| ->]; [left; eexists; reflexivity|right; reflexivity].
     - cbn [FSem.py_eval]. destruct (IHa Hb rdp) as [[x ->]| ->]; [left; eexists; reflexivity|right; reflexivity].
-    - destruct Hb as [Ha Hb]. cbn [FSem.py_eval].
-      destruct (IHa Ha rdp) as [[x ->]| ->]; [|right; reflexivity].
-      destruct (IHb Hb rdp) as [[y ->]| ->]; [|right; reflexivity].
+    - destruct Hb as (Ha & Hb & _). cbn [FSem.py_eval].
+      assert (Va : (exists x, py_eval false rdp a = inl (PF x)) \/ py_eval false rdp a = inr tag_index).
+      { destruct Ha as [Ha|Ha]; [apply IHa; exact Ha|]. left.
+        destruct (dec_atom_both num add sub mul div neg absf ltb is_nan is_inf of_int fexp flog fpow
+                    (fun x => x) (fun x => x) (fun x => x) (fun x _ => x) (of_int 1) false rdp (fun _ _ => of_int 0) a Ha) as [P _]. eexists; exact P. }
+      assert (Vb : (exists x, py_eval false rdp b = inl (PF x)) \/ py_eval false rdp b = inr tag_index).
+      { destruct Hb as [Hb|Hb]; [apply IHb; exact Hb|]. left.
+        destruct (dec_atom_both num add sub mul div neg absf ltb is_nan is_inf of_int fexp flog fpow
+                    (fun x => x) (fun x => x) (fun x => x) (fun x _ => x) (of_int 1) false rdp (fun _ _ => of_int 0) b Hb) as [P _]. eexists; exact P. }
+      destruct Va as [[x ->]| ->]; [|right; reflexivity].
+      destruct Vb as [[y ->]| ->]; [|right; reflexivity].
       left. unfold FSem.py_mm. destruct m; match goal with |- context [if ?c then _ else _] => destruct c end; eexists; reflexivity.
   Qed.
 
